@@ -369,6 +369,7 @@ impl World {
         };
         let core = SimCore::new(store);
         core.clock_base.store(self.core.clock_base.load(std::sync::atomic::Ordering::SeqCst), std::sync::atomic::Ordering::SeqCst);
+        core.clock_div.store(self.core.clock_div.load(std::sync::atomic::Ordering::SeqCst), std::sync::atomic::Ordering::SeqCst);
         World {
             alt: self.alt.clone(),
             core,
@@ -550,6 +551,14 @@ impl World {
     }
 
     fn call_opts(&self, plan: FaultPlan) -> CallOpts {
+        // "Hung" means more storage operations than any terminating call could need: a
+        // generous linear bound in what there is to read and write (a file of a megabyte
+        // stored in 7-byte blocks legitimately takes hundreds of thousands of operations).
+        let store_nodes = self.store().nodes.len() as u64;
+        let source_bytes: u64 = self.snap.values().map(|n| n.data.len() as u64).sum::<u64>()
+            + self.alt.as_ref().map(|a| a.snap.values().map(|n| n.data.len() as u64).sum::<u64>()).unwrap_or(0);
+        let budget = 200_000u64 + 4 * store_nodes + 2 * source_bytes;
+        self.core.op_budget.store(budget.min(u32::MAX as u64) as u32, std::sync::atomic::Ordering::SeqCst);
         let mut plan = plan;
         if plan.delay.is_none() {
             plan.delay = self.env.delay;
@@ -692,6 +701,11 @@ impl World {
     /// Move the simulated wall clock (what Conserve records as start and end times).
     pub fn set_clock_base(&self, secs: i64) {
         self.core.clock_base.store(secs, std::sync::atomic::Ordering::SeqCst);
+    }
+
+    /// Storage operations per simulated second.
+    pub fn set_clock_div(&self, ops: i64) {
+        self.core.clock_div.store(ops, std::sync::atomic::Ordering::SeqCst);
     }
 
     pub fn restore(&mut self, spec: &RestoreSpec) -> RestoreRun {
